@@ -456,6 +456,25 @@ impl<K: Hash + Eq, V, KH: KeyHasher<K>, FH: BuildHasher, RH: BuildHasher, WH: Bu
         WTinyLFUCacheBuilder::default()
     }
 
+
+    /// Verification hook (feature `verif-hooks`): read-only view of the window LRU.
+    #[cfg(feature = "verif-hooks")]
+    pub fn verif_window(&self) -> &LRUCache<K, V, WH> {
+        &self.lru
+    }
+
+    /// Verification hook (feature `verif-hooks`): read-only view of the segmented main cache.
+    #[cfg(feature = "verif-hooks")]
+    pub fn verif_main(&self) -> &SegmentedCache<K, V, FH, RH> {
+        &self.slru
+    }
+
+    /// Verification hook (feature `verif-hooks`): read-only view of the frequency estimator.
+    #[cfg(feature = "verif-hooks")]
+    pub fn verif_estimator(&self) -> &TinyLFU<K, KH> {
+        &self.tinylfu
+    }
+
     /// Returns the window cache len
     pub fn window_cache_len(&self) -> usize {
         self.lru.len()
